@@ -41,11 +41,71 @@ def _len_derived(f):
     return derived
 
 
-def scan(m, only_repo=True):
+def _reaches_control(f, v, uses, depth=0, seen=None):
+    """does value v flow (through casts and arithmetic) into a comparison, an
+    address computation, a block length or a call argument?  -> the sink or None"""
+    seen = seen if seen is not None else set()
+    if v in seen or depth > 8:
+        return None
+    seen.add(v)
+    for u in uses.get(v, []):
+        if u.op in ("icmp", "getelementptr", "switch"):
+            return u
+        if u.op in ("call", "invoke"):
+            if (u.callee or "").startswith("llvm.dbg"):
+                continue
+            return u
+        if u.op in ("zext", "sext", "trunc", "add", "sub", "mul", "and", "or", "shl", "lshr", "ashr", "phi", "select", "udiv", "urem"):
+            r = _reaches_control(f, u.id, uses, depth + 1, seen)
+            if r is not None:
+                return r
+    return None
+
+
+def scan_truncations(m, only_repo=True, files=None):
+    """truncations of a size_t-derived value to 32 bits or fewer whose operand is
+    not bounded (by the guards that dominate it, type widths included) to the
+    narrower type and whose result is used for control, addressing or as a
+    length -> (number examined, [(function, trunc, sink, upper bound)])"""
+    from . import ranges
+    n, bad = 0, []
+    for f in m.defined():
+        if only_repo and not f.srcfile.startswith(repo.REPO):
+            continue
+        if files and not any(x in f.srcfile for x in files):
+            continue
+        der = RG = uses = None
+        for i in f.insts():
+            if i.op != "trunc" or i.d.get("fromty", "") != "i64":
+                continue
+            w = ranges._w(i.ty)
+            if w < 16:
+                continue            # byte extraction of a word, not a length
+            if der is None:
+                der = _len_derived(f)
+            if i.ops[0] not in der:
+                continue
+            n += 1
+            if RG is None:
+                RG = ranges.Ranges(f, wide=False)
+            lo, hi = RG.at(i.ops[0], i.block.name)
+            if hi < (1 << w):
+                continue
+            if uses is None:
+                uses = f.uses()
+            sink = _reaches_control(f, i.id, uses)
+            if sink is not None:
+                bad.append((f, i, sink, hi))
+    return n, bad
+
+
+def scan(m, only_repo=True, files=None):
     """-> (number of 64-bit masks examined, [(function, instruction, mask)])"""
     n, bad = 0, []
     for f in m.defined():
         if only_repo and not f.srcfile.startswith(repo.REPO):
+            continue
+        if files and not any(x in f.srcfile for x in files):
             continue
         der = None
         for i in f.insts():
@@ -68,14 +128,23 @@ def scan(m, only_repo=True):
     return n, bad
 
 
-def rule(rep, rid, m, cname, only_repo=True):
-    n, bad = scan(m, only_repo)
+def rule(rep, rid, m, cname, only_repo=True, files=None):
+    n, bad = scan(m, only_repo, files)
     for f, i, c in bad:
         rep.violation(rid, "%s:mask%#x" % (f.name, c), i.where(),
                       "%s masks a 64-bit length with the 32-bit constant %#x (a `~N U` mask is zero-extended): bits 32..63 of "
                       "the length are cleared, so for lengths of 4 GiB or more only len mod 2^32 bytes are processed" % (f.name, c),
                       config=cname)
     rep.instance(rid, n - len(bad), {"config": cname, "masks_examined": n})
+    nt, badt = scan_truncations(m, only_repo, files)
+    for f, i, sink, hi in badt:
+        rep.violation(rid, "%s:trunc%d" % (f.name, 8 * (i.d.get("sz") or 0) or int(i.ty[1:])), i.where(),
+                      "%s narrows a size_t-derived value to %s although nothing bounds it below 2^%s (the guards allow values up to "
+                      "%#x), and uses the narrowed value for %s at %s: lengths of 4 GiB or more are processed as if they were "
+                      "len mod 2^%s" % (f.name, i.ty, i.ty[1:], hi, {"icmp": "a comparison", "getelementptr": "an address",
+                                                                     "switch": "a switch"}.get(sink.op, "a call argument"),
+                                        sink.where(), i.ty[1:]), config=cname)
+    rep.instance(rid, nt - len(badt), {"config": cname, "truncations_examined": nt})
     return n
 
 
@@ -87,7 +156,11 @@ def control(rep, rid):
     repo.run(["clang", "-O0", "-Xclang", "-disable-O0-optnone", "-g", "-fno-discard-value-names", "-S", "-emit-llvm", src, "-o", ll])
     repo.run(["opt-14", "-S", "-passes=function(sroa,early-cse)", ll, "-o", opt])
     repo.run([repo.IRDUMP, opt, js])
-    n, bad = scan(ir.Module.load(js), only_repo=False)
+    mm = ir.Module.load(js)
+    n, bad = scan(mm, only_repo=False)
+    nt, badt = scan_truncations(mm, only_repo=False)
+    if not badt:
+        rep.broken.append("%s positive control: the fixture's unguarded (unsigned) cast of a size_t length was not reported" % rid)
     if not bad:
         rep.broken.append("%s positive control: the fixture's 32-bit mask of a size_t length was not reported" % rid)
     else:
